@@ -530,7 +530,7 @@ for _m, _n, _of, _what in _C14:
       bounds="see the harness under its own property", assumes=[BIG_ASSUME])
 H("C18", "matrix_card", "c18_proof_agreement", timeout=3600, oracle_features=["cap64", "q16"],
   encodes=["matrix_card::verify_matrix_card_hash", "MatrixCardVerifier::{new, get_matrix_coordinates, enter_value, into_proof}", "MatrixCard::get_number_at_coordinates"],
-  inputs="2x2 card, digit count 1..2, challenge count 1..2, seed, session key, card contents, position of one mistyped digit: any",
+  inputs="2x2 card; (digits, challenges) in {(1,1), (2,2)}; seed, session key, card contents, position of one mistyped digit: any",
   asserts="proof of the printed digits at the challenged cells is accepted; a proof from a sequence with one digit changed is refused",
   bounds="2x2 card; RC4 keystream = uninterpreted function of MD5(seed | session key); generate_coordinates uninterpreted (distinct on-card cells)", assumes=[HASH_ASSUME, "Rc4::new / apply_keystream replaced by an uninterpreted keystream (same key => same keystream); explicit collision-freeness of the recorded HMAC queries"], **_MC)
 
